@@ -58,6 +58,8 @@ func Expr(x M) string {
 		return "(" + Expr(x["a"].(M)) + " " + x["op"].(string) + " " + Expr(x["b"].(M)) + ")"
 	case "not":
 		return "(!" + Expr(x["a"].(M)) + ")"
+	case "paren":
+		return "((" + Expr(x["a"].(M)) + "))"
 	case "and":
 		return "(" + Expr(x["a"].(M)) + " && " + Expr(x["b"].(M)) + ")"
 	case "or":
@@ -252,6 +254,11 @@ func (e *emitter) defs(p M) {
 		names = append(names, n)
 	}
 	sort.Strings(names)
+	if o, _ := p["def_order"].(string); o == "reverse" {
+		for i, j := 0, len(names)-1; i < j; i, j = i+1, j-1 {
+			names[i], names[j] = names[j], names[i]
+		}
+	}
 	for _, n := range names {
 		d := defs[n].(M)
 		var ps []string
